@@ -145,6 +145,24 @@ func init() {
 			}
 			fmt.Fprintf(w, "def %s : Bool := %v\n", it.def, before)
 		}
+		// 3b. adjustTable: which coordinate is compared with the removed row (0 = x1, 1 = y1)
+		w.WriteString("\n/-! adjust.go adjustTable: index of the coordinate compared with the removed row (1 = y1, the header row) -/\n")
+		hdr := -1
+		if fd := funcDecl("File", "adjustTable"); fd == nil {
+			fail("func (*File) adjustTable")
+		} else {
+			ast.Inspect(fd.Body, func(n ast.Node) bool {
+				be, ok := n.(*ast.BinaryExpr)
+				if ok && be.Op == token.EQL && c06Norm(src(be.X)) == "num" && strings.HasPrefix(c06Norm(src(be.Y)), "coordinates[") {
+					fmt.Sscanf(c06Norm(src(be.Y)), "coordinates[%d]", &hdr)
+				}
+				return true
+			})
+			if hdr < 0 {
+				fail("adjustTable: `num == coordinates[k]` not found")
+			}
+		}
+		fmt.Fprintf(w, "def tableHeaderCoord : Int := %d\n", hdr)
 		w.WriteString("\n")
 
 		// 4. guard skeletons
@@ -154,7 +172,7 @@ func init() {
 			{"File", "adjustHelper"}, {"File", "adjustRowDimensions"}, {"File", "adjustColDimensions"},
 			{"File", "adjustCols"}, {"File", "adjustCellRef"}, {"File", "adjustMergeCells"},
 			{"File", "adjustMergeCellsHelper"}, {"File", "adjustAutoFilter"}, {"File", "adjustAutoFilterHelper"},
-			{"File", "adjustConditionalFormats"},
+			{"File", "adjustConditionalFormats"}, {"File", "adjustTable"},
 		} {
 			fd := funcDecl(it.recv, it.fn)
 			if fd == nil {
